@@ -405,7 +405,7 @@ func c07(c *wk.Ctx) {
 	if wk.ReplayOne(c, "c07runs", nil, onDeath) {
 		return
 	}
-	n := c.N(144, 2400)
+	n := c.N(144, 9600)
 	parts := 12
 	nch := c.N(1, 3)
 	wk.Parallel(parts+nch, 13, func(p int) {
